@@ -40,8 +40,7 @@ func runnyBitmap(c *runner.Ctx, n int, pattern int) *roaring.Bitmap {
 func c15Run(c *runner.Ctx) {
 	r := c.R
 	w, err := gen.GenWorld(r, c.TmpDir, fmt.Sprintf("w%d", c.Idx), gen.WorldOpts{MaxDocs: 150, MinDocs: 2, Jumbo: c.Idx%100 == 0})
-	if err != nil {
-		c.Note(fmt.Sprintf("case %d: world construction failed (C01/C02/C04's business): %s", c.Idx, firstLine(err.Error())))
+	if w = usable(c, w, err); w == nil {
 		return
 	}
 	defer w.Close()
